@@ -71,7 +71,14 @@ IsGoal(g, s) == g.goal[s] = 1
 AddInf(c, d) == IF d >= INF THEN INF ELSE c + d
 MinOver(S)   == IF S = {} THEN INF ELSE MinSet(S)
 \* cost model: "cost" the real costs, "unit" every step costs 1, "relaxed" min(cost, 1)
-EdgeCost(g, s, a, unit) == IF unit = "unit" THEN 1 ELSE IF unit = "relaxed" THEN MinI(g.cost[s][a], 1) ELSE g.cost[s][a]
+\* len[s][a] = m >= 1: the edge stands for a corridor of m real edges of cost cost[s][a] each through m - 1
+\* private states with a single action (solution paths of more than 1000 real states are modelled this
+\* way: the real run is on the expanded graph, its path is collapsed structurally before it is judged)
+EdgeLen(g, s, a) == g.len[s][a]
+EdgeCost(g, s, a, unit) ==
+  IF unit = "unit" THEN EdgeLen(g, s, a)
+  ELSE IF unit = "relaxed" THEN MinI(g.cost[s][a], 1) * EdgeLen(g, s, a)
+  ELSE g.cost[s][a] * EdgeLen(g, s, a)
 
 \* one Bellman-Ford round of the cost-to-go; absorbing states are worth 0 and are never left
 ToGoStep(g, d, unit) ==
@@ -130,7 +137,9 @@ Indexable(g, r) ==
   /\ Len(r.path) >= 1 /\ Len(r.acts) = Len(r.path) - 1
   /\ \A i \in 1..Len(r.path) : r.path[i] \in Nodes(g)
 RECURSIVE PathCost(_, _, _)
-PathCost(g, r, i) == IF i = 0 THEN 0 ELSE g.cost[r.path[i]][r.acts[i]] + PathCost(g, r, i - 1)
+PathCost(g, r, i) == IF i = 0 THEN 0 ELSE EdgeCost(g, r.path[i], r.acts[i], "cost") + PathCost(g, r, i - 1)
+RECURSIVE PathSteps(_, _, _)
+PathSteps(g, r, i) == IF i = 0 THEN 0 ELSE EdgeLen(g, r.path[i], r.acts[i]) + PathSteps(g, r, i - 1)
 
 Fails(g, alg, r, o) ==
   LET reachable == o.togo[g.start] < INF
@@ -153,7 +162,7 @@ Fails(g, alg, r, o) ==
    \cup (IF ok /\ alg = "astar" /\ follows /\ r.value # PathCost(g, r, Len(r.acts))
             THEN {"path-value-is-path-cost"} ELSE {})
    \cup (IF ok /\ alg = "bfs" /\ r.path[1] = g.start /\ follows /\ IsGoal(g, r.path[Len(r.path)])
-            /\ Len(r.acts) # o.hops[g.start] THEN {"minimum-steps"} ELSE {})
+            /\ PathSteps(g, r, Len(r.acts)) # o.hops[g.start] THEN {"minimum-steps"} ELSE {})
 
 \* coarse input shape (part of the violation signature)
 Shape(g, o) ==
@@ -430,6 +439,8 @@ InstanceWellFormed == phase = "oracle" =>
   \* cbase = B > 0 the instance stands for the real problem with costs (c div B) * M + (c mod B), M = cbig.
   \* That embedding is additive and order preserving on all sums a search can form (at most N edges plus
   \* a heuristic that is itself such a sum) when the residues cannot carry into the next digit:
+  \* the machines explore plain graphs only (corridor edges are judged, not explored)
+  /\ \A s \in Nodes(G) : \A a \in 1..G.K : G.len[s][a] = 1
   \* a planner object is re-used on a problem with the same configuration menu
   /\ G.then # 0 => (G.then \in 1..Len(Graphs) /\ G.then # iid /\ Graphs[G.then].cfgs = G.cfgs)
   /\ G.cbase > 0 => \A s \in Nodes(G) : \A a \in 1..G.K : (G.cost[s][a] % G.cbase) * 2 * G.N < G.cbase
